@@ -37,7 +37,7 @@ MK = ['ANY', 'VAL', 'EQ', 'NE', 'LT', 'LE', 'GT', 'GE', 'NOTEQ', 'ANYOF', 'TYPED
 # with predicate kinds (sim::WK)
 WK = ['LE', 'GE', 'NE', 'EQ', 'LT12', 'NESNAP', 'LTMAC']
 # bounds forms (sim::BF)
-BF = ['DEFAULT', 'T2', 'T13', 'T02', 'AL1', 'AL2', 'AM2', 'RT1', 'RT2', 'ALLOW', 'FORBID', 'T0', 'T11', 'AL0', 'T3', 'T24']
+BF = ['DEFAULT', 'T2', 'T13', 'T02', 'AL1', 'AL2', 'AM2', 'RT1', 'RT2', 'ALLOW', 'FORBID', 'T0', 'T11', 'AL0', 'T3', 'T24', 'RTAL', 'RTAM']
 BOUNDS = {
     'DEFAULT': (1, 1, ''),
     'T2': (2, 2, '.TIMES(2)'),
@@ -52,6 +52,8 @@ BOUNDS = {
     'AM2': (0, 2, '.TIMES(AT_MOST(2))'),
     'RT1': (-2, -2, '.RT_TIMES(x.lo)'),
     'RT2': (-2, -2, '.RT_TIMES(x.lo, x.hi)'),
+    'RTAL': (-2, -2, '.RT_TIMES(AT_LEAST(x.lo))'),
+    'RTAM': (-2, -2, '.RT_TIMES(AT_MOST(x.hi))'),
     'ALLOW': (0, -1, None),
     'FORBID': (0, 0, None),
     'T0': (0, 0, '.TIMES(0)'),
@@ -117,7 +119,7 @@ def gen_shape(rng, sid, fn, force=None):
     # bounds
     bf = force.get('bf') or rng.choice(
         ['DEFAULT'] * 5 + ['T2', 'T13', 'T02', 'AL1', 'AL2', 'AM2', 'T11', 'AL0', 'T3', 'T24'] +
-        ['RT1'] * 2 + ['RT2'] * 3 + ['ALLOW'] * 4 + ['FORBID'] * 2 + ['T0'])
+        ['RT1'] * 2 + ['RT2'] * 3 + ['RTAL', 'RTAM'] + ['ALLOW'] * 4 + ['FORBID'] * 2 + ['T0'])
     d['bf'] = bf
     forbidding = bf in ('FORBID', 'T0')
     # matchers
@@ -322,6 +324,8 @@ def main():
             dict(bf='RT2', mk=any_m, nwith=0, nseq=1, nse=0, rk=base_rk),
             dict(bf='RT2', mk=val_m, nwith=1, nseq=0, nse=1, rk=base_rk),
             dict(bf='RT1', mk=any_m, nwith=0, nseq=2, nse=2, rk=base_rk),
+            dict(bf='RTAL', mk=any_m, nwith=0, nseq=1, nse=0, rk=base_rk),
+            dict(bf='RTAM', mk=val_m, nwith=0, nseq=0, nse=1, rk=base_rk),
             dict(bf='DEFAULT', mk=any_m, nwith=2, nseq=0, nse=3, rk=base_rk),
         ]
         if f['ret'] == 'void':
